@@ -126,7 +126,7 @@ def run(ctx, chk):
                     check_level(ctx, chk, cf, o, e, lv)
     chk.floor("C01.who-writes/compromised", n_comp, 1, "stores to family compromised")
     chk.floor("C01.who-writes/access", n_acc, 2, "stores to family access")
-    chk.floor("C01.target-row", n_rows, 5, "whole-row stores")
+    chk.floor("C01.target-row", n_rows, 1, "whole-row stores")
     check_action_routing(ctx, chk)
     chk.assume("granted access level of scenario actions is USER or ROOT (loader guard "
                "VALID_ACCESS_VALUES / generator randint(USER, ROOT+1)); checked in C15/C17")
